@@ -12,7 +12,7 @@ export -f run
 {
 for d in seeded/*/; do id=$(basename $d); pid=${id%%-*}; echo "$id $d/patch.diff $pid"; done
 # seeds whose mechanism lives in another property's check
-echo "C01-m1 seeded/C01-m1/patch.diff C04"; echo "C06-m2 seeded/C06-m2/patch.diff C04"; echo "C12-m2 seeded/C12-m2/patch.diff C18"
+for x in C01-m1:C04 C01-m3:C04 C01-m4:C04 C06-m2:C04 C06-m3:C04 C08-m4:C04 C12-m2:C18 C12-m4:C18 C10-m3:C19 C05-m4:C15 C03-m3:C08 C13-m4:C08 C16-m3:C11; do echo "${x%%:*} seeded/${x%%:*}/patch.diff ${x#*:}"; done
 # reverted fixes: defect -> properties
 while read d pids; do for p in $pids; do
   if [ -f fixes/fix_${d}_revert.diff ]; then echo "rev-$d fixes/fix_${d}_revert.diff $p"; else echo "rev-$d fixes/fix_$d.diff $p --reverse"; fi
